@@ -17,8 +17,8 @@ PARAM_VALS = {
     'stmin': [0, 1, 127, 255, 256, -1, 'a', 1.0, None, True],
     'blocksize': [0, 8, 255, 256, -1, 'a', 2.5, None],
     'override_receiver_stmin': [None, 0, 0.0, 0.001, 5, -0.1, -1, float('nan'), float('inf'), 'x', True, 1e300, 1e299, 10**400],
-    'rx_flowcontrol_timeout': [0, 1, 1000, 10**9, -1, 1.5, 'a', None, 10**400],
-    'rx_consecutive_frame_timeout': [0, 1, 1000, 10**9, -1, 2.5, 'a', None, 10**400],
+    'rx_flowcontrol_timeout': [0, 1, 1000, 10**9, -1, 1.5, 'a', None, 10**400, 10**308, 10**303, 10**302],
+    'rx_consecutive_frame_timeout': [0, 1, 1000, 10**9, -1, 2.5, 'a', None, 10**400, 10**308, 10**303, 10**302],
     'tx_padding': [None, 0, 0xAA, 255, 256, -1, 'a', 1.0],
     'wftmax': [0, 1, 255, 1000, -1, 'a', 1.0, None],
     'tx_data_length': [8, 12, 16, 20, 24, 32, 48, 64, 7, 9, 0, 65, 'a', 8.0, None],
@@ -70,7 +70,8 @@ def doc_param_verdict(p):
         v = chk_int(tk, 0, None, 1000)
         if v is not None:
             try:
-                float(v)
+                if not math.isfinite(float(v) / 1000 * 1e9):
+                    either()    # representable in seconds but not in the nanoseconds the timers count: same silence
             except OverflowError:
                 either()    # a non-negative integer that no timer can represent: documentation silent; must not crash later
     v = chk_int('wftmax', 0, None, 0)
@@ -239,6 +240,9 @@ class C16(PropBase):
             params['override_receiver_stmin'] = rng.choice([0, 0.5, 1e290, 1e299, 2e299, 1e300, 1e308])
         if rng.random() < 0.15:
             params['blocking_send'] = True
+        if rng.random() < 0.12:
+            # timeouts at the edge of what the timers can count (float seconds -> integer nanoseconds)
+            params[rng.choice(['rx_flowcontrol_timeout', 'rx_consecutive_frame_timeout'])] = rng.choice([10**308, 10**303, 2 * 10**302, 10**302, 10**400, 10**12])
         if rng.random() < 0.35:
             # boundary values of the documented ranges (the same table the validation family uses): whatever the documentation accepts
             # must construct a layer that can then be driven
